@@ -200,6 +200,31 @@ _run_abd = run
 def run(ctx):
     _run_abd(ctx)
     allocator_rewinds(ctx)
+    raw_container_removals(ctx)
+
+
+RAW_REMOVE_OK = {
+    "BufferedRaftLog::remove_range": "the one primitive behind conflict truncation and purge (its callers are the C05-a table)",
+    "BufferedRaftLog::reset_internal": "the one primitive behind reset (its callers are the C05-a table)",
+}
+
+
+def raw_container_removals(ctx):
+    """C05-a (raw form) the in-memory entry map is shrunk only inside the two licensed primitives: a direct
+    `self.entries.remove/clear/pop_*` anywhere else deletes log entries behind the back of the who-may-delete table"""
+    F = ctx.F
+    n = 0
+    for bid, b in sorted(F.bodies.items()):
+        if b.crate != "d_engine_core" or re.search(r"(_test|/tests?/|test_utils|mock)", b.file or ""):
+            continue
+        for (bi, t) in field_receiver_calls(F, b, "BufferedRaftLog", "entries", r"SkipMap(::<.*>)?::(remove|clear|pop_front|pop_back|remove_entry)$"):
+            n += 1
+            fk = fkey(F.root_of[bid])
+            m = strip_generics(callee_key(t)).split("::")[-1]
+            ctx.check("C05-a", "%s#entries.%s#raw-removal" % (fk, m), fk in RAW_REMOVE_OK,
+                      "raw removal inside a licensed primitive: %s" % RAW_REMOVE_OK.get(fk, ""),
+                      "BufferedRaftLog.entries is shrunk (%s) outside remove_range / reset_internal: log entries are deleted without passing the who-may-delete table" % m, loc(b, bi))
+    ctx.floor("C05-a", n, 2, "raw removals from BufferedRaftLog.entries (remove_range, reset_internal)")
 
 
 NEXT_ID_WRITE = r"atomic::Atomic\w*::(store|swap|fetch_min|fetch_sub|compare_exchange|compare_exchange_weak|fetch_update)$"
